@@ -74,7 +74,9 @@ class Rule:
         """Fail closed when fewer instances matched than were confirmed by hand."""
         self.stat.floor = n
         if self.stat.instances < n:
-            raise AnalysisError(
+            # decided at the end of the run: with a violation already reported the missing
+            # instance is explained; without one the rule would pass vacuously -> exit 2
+            self.ctx.floor_misses.append(
                 f"rule {self.rid}: matched {self.stat.instances} instance(s), "
                 f"floor confirmed by hand is {n} -- anchors moved or vanished"
             )
@@ -86,6 +88,7 @@ class Ctx:
         self.findings: list[Finding] = []
         self.rules: dict[str, RuleStat] = {}
         self.notes: list[str] = []
+        self.floor_misses: list[str] = []
         self.extra: dict[str, Any] = {}
         self.t0 = time.time()
 
